@@ -383,6 +383,10 @@ func (vc *VC) evalBinary(x *SBinary, env *Env) TV {
 		return TV{T: Eq(vc.evalBool(x.X, env), vc.evalBool(x.Y, env)), Ty: boolTy}
 	}
 	a, b := vc.evalSpec(x.X, env), vc.evalSpec(x.Y, env)
+	if x.Op == "+" && a.T.Sort == SStr && b.T.Sort == SStr {
+		// string concatenation: the same uninterpreted term the code's + produces
+		return TV{T: App(SStr, "str.concat_", a.T, b.T), Ty: goTy(types.Typ[types.String])}
+	}
 	if a.Lit != nil && b.Lit != nil {
 		// constant folding
 		r := new(big.Int)
